@@ -2,7 +2,7 @@
    GroupProofs.v.  The theorems cover the module group's start/stop logic for every number of
    modules and every combination of module behaviours; that the real modules' workers come up,
    exit on cancellation and release their sockets is runtime behaviour the harness observes. *)
-From Verif Require Import Prelude Group GroupProofs.
+From Verif Require Import Prelude Gen Group GroupProofs.
 
 Theorem C20_failed_start_leaves_nothing : forall mods,
   snd (g_start mods) = false -> running (fst (g_start mods)) [] = [].
@@ -26,3 +26,14 @@ Example C20_nonvacuous :
   g_start [mkMb true true true; mkMb true true true; mkMb false true true; mkMb true true true]
   = ([CStart 0; CStart 1; CStart 2; CStop 2; CStop 1; CStop 0], false).
 Proof. reflexivity. Qed.
+
+(* ---------- stopping cannot hang on a self-deadlock (go/ast obligation on the source under test) ---------- *)
+(* [workers_exit] and [stop_ok] above are per-module behaviours the harness observes on the real
+   modules.  One way for them to be false that no finite run reliably shows: a method that holds
+   one of its receiver's mutexes calls a method that takes the same mutex again (a second RLock of
+   an RWMutex blocks for good once a writer waits in between; Stop and every worker needing the
+   lock then hang).  Gen.no_reentrant_locks is computed over the whole peering, state, router, m,
+   storage, switchr, frame, api/dns and mgr packages on every run. *)
+Theorem C20_no_self_deadlock : Gen.no_reentrant_locks = true.
+Proof. reflexivity. Qed.
+Print Assumptions C20_no_self_deadlock.
